@@ -31,17 +31,22 @@ func (c09) Assumptions() []string {
 const appName = "review-app"
 const appKey = 5
 
+// a second code-review app with its own identity namespace; it is declared
+// but (usually) not trusted
+const app2Name = "legacy-app"
+const app2Key = 8
+
 func c09Policy(thr int, trusted bool) *world.PolicySpec {
 	ps := []world.PrincipalSpec{}
 	ids := []string{}
 	for i := 1; i <= 4; i++ {
-		p := world.PrincipalSpec{ID: fmt.Sprintf("person-%d", i), Keys: []int{i}, Person: true, Identities: map[string]string{appName: fmt.Sprintf("user-%d", i)}}
+		p := world.PrincipalSpec{ID: fmt.Sprintf("person-%d", i), Keys: []int{i}, Person: true, Identities: map[string]string{appName: fmt.Sprintf("user-%d", i), app2Name: fmt.Sprintf("legacy-%d", i)}}
 		ps = append(ps, p)
 		ids = append(ids, p.ID)
 	}
 	return &world.PolicySpec{
 		RootVersion: 1, RootKeys: []int{0}, RootThreshold: 1, TargetsKeys: []int{0}, TargetsThreshold: 1, RootSigners: []int{0},
-		Apps: []world.AppSpec{{Name: appName, Keys: []int{appKey}, Trusted: trusted, Threshold: 1}},
+		Apps: []world.AppSpec{{Name: appName, Keys: []int{appKey}, Trusted: trusted, Threshold: 1}, {Name: app2Name, Keys: []int{app2Key}, Trusted: false, Threshold: 1}},
 		Files: map[string]*world.RuleFileSpec{"targets": {Version: 1, Principals: ps, Signers: []int{0},
 			Rules: []world.RuleSpec{{Name: "protect-main", Patterns: []string{"git:" + mainRef}, Principals: ids[:3], Threshold: thr}}}},
 	}
@@ -53,6 +58,9 @@ func (c09) Generate(r *core.Rand, tier string, idx uint64) *core.Case {
 	thr := r.Range(2, 3)
 	trusted := r.Chance(0.75)
 	pol := c09Policy(thr, trusted)
+	if r.Chance(0.3) {
+		pol.Apps[1].Trusted = true // both apps trusted: identities must still be resolved per app
+	}
 	b.add(world.Op{Kind: "stage", Actor: 0, Policy: pol})
 	b.add(world.Op{Kind: "apply", Actor: 0})
 	// actors: 0 root, 1..4 persons (4 is defined but not in the rule), 5 app bot, 6 outsider
@@ -100,7 +108,12 @@ func (c09) Generate(r *core.Rand, tier string, idx uint64) *core.Case {
 				}
 				n := r.Range(1, 3)
 				for j := 0; j < n; j++ {
-					ap.Approvers = append(ap.Approvers, fmt.Sprintf("user-%d", r.Range(1, 5)))
+					if r.Chance(0.25) {
+						// a login that only means something in the other app's namespace
+						ap.Approvers = append(ap.Approvers, fmt.Sprintf("legacy-%d", r.Range(1, 3)))
+					} else {
+						ap.Approvers = append(ap.Approvers, fmt.Sprintf("user-%d", r.Range(1, 5)))
+					}
 				}
 				if r.Chance(0.3) {
 					d := fmt.Sprintf("user-%d", r.Range(1, 4))
@@ -190,7 +203,7 @@ func (c09) Generate(r *core.Rand, tier string, idx uint64) *core.Case {
 
 func (d c09) Execute(c *core.Case) *core.Result {
 	res := &core.Result{}
-	keys := []int{0, 1, 2, 3, 4, appKey, outsiderKey}
+	keys := []int{0, 1, 2, 3, 4, appKey, outsiderKey, app2Key}
 	run := runPolicyCase(c, keys, nil, []string{mainRef}, nil)
 	if run.Harness != "" {
 		res.HarnessErr = run.Harness
@@ -214,6 +227,27 @@ func (d c09) Execute(c *core.Case) *core.Result {
 				byzSeen["lifted-signatures-present"] = true
 			}
 		}
+	}
+	// a review by one trusted app naming a login that belongs to another trusted app's namespace
+	crossApp := false
+	{
+		bothTrusted, legacyLogin := false, false
+		for _, op := range c.Ops {
+			if op.Policy != nil && len(op.Policy.Apps) >= 2 && op.Policy.Apps[0].Trusted && op.Policy.Apps[1].Trusted {
+				bothTrusted = true
+			}
+			if a := op.Approve; a != nil && a.App == appName {
+				for _, l := range a.Approvers {
+					if strings.HasPrefix(l, "legacy-") {
+						legacyLogin = true
+					}
+				}
+			}
+		}
+		crossApp = bothTrusted && legacyLogin
+	}
+	if crossApp {
+		byzSeen["approver-login-from-another-trusted-apps-namespace"] = true
 	}
 	vec := []string{}
 	dependsOnApprovals := false
